@@ -1266,25 +1266,25 @@ class EventType(VersionedOntologyElement, MutableMapping):
             if self.get_parent() is not None:
                 self.get_parent().update(event_type.get_parent())
             else:
-                self.set_parent(event_type.get_parent())
+                self.set_parent(event_type.get_parent()._set_event_type(self))
 
         for property_name in self.get_properties().keys():
             self[property_name].update(event_type[property_name])
 
         for property_name in set(event_type.get_properties().keys()) - set(self.get_properties().keys()):
-            self.add_property(event_type.get_properties()[property_name])
+            self.add_property(event_type.get_properties()[property_name]._set_event_type(self))
 
         for relation_id in self.get_property_relations().keys():
             self.get_property_relations()[relation_id].update(event_type.get_property_relations()[relation_id])
 
         for relation_id in set(event_type.get_property_relations().keys()) - set(self.get_property_relations().keys()):
-            self.add_relation(event_type.get_property_relations()[relation_id])
+            self.add_relation(event_type.get_property_relations()[relation_id]._set_event_type(self))
 
         for attachment_name, attachment in event_type.get_attachments().items():
             if attachment_name in self.get_attachments().keys():
                 self.get_attachments()[attachment_name].update(event_type.get_attachments()[attachment_name])
             else:
-                self.add_attachment(attachment)
+                self.add_attachment(attachment._set_event_type(self))
 
     def update(self, event_type):
         """
